@@ -20,8 +20,12 @@ PROP = {'engine': 'directinvoke',
            {'engine': 'bandwidthlimiter',
             'test': 'TestC17Bucket',
             'quick': {'checks': 800, 'shards': 8, 'timeout': 600},
-            'thorough': {'checks': 3000, 'shards': 14, 'timeout': 2400, 'race': True, 'race_frac': 0.1}}],
- 'rule': 'three parts. (a) TestC17Parse: sequences of 2-8 direct-invoke requests, each with a random subset of MaxPayloadSize, InvokeResponseMode, '
+            'thorough': {'checks': 3000, 'shards': 14, 'timeout': 2400, 'race': True, 'race_frac': 0.1}},
+           {'engine': 'stack',
+            'test': 'TestC17Stack',
+            'quick': {'checks': 100, 'shards': 8, 'timeout': 900},
+            'thorough': {'checks': 1500, 'shards': 14, 'timeout': 3000}}],
+ 'rule': 'four parts. (a) TestC17Parse: sequences of 2-8 direct-invoke requests, each with a random subset of MaxPayloadSize, InvokeResponseMode, '
          'ResponseBandwidthRate, ResponseBandwidthBurstSize, Customer-Headers (valid / invalid / boundary values, empty values) and identity fields '
          "matching the reservation token or not (wrong / empty / other-case / previous request's ids, expired reservation). Oracle: every request is "
          'judged on its own (package variables at their initial values) against a pure specification of one request (defaults when a header is '
@@ -43,7 +47,13 @@ PROP = {'engine': 'directinvoke',
          'fixed cases through NewStreamedResponseWriter at the corners of the rate/burst header ranges (125 ms interval). Oracle: cumulative bytes '
          'at a write stamped t <= initial + min(refill,capacity)*floor(t/interval) (no tolerance); a forwarded write <= capacity; any run of '
          'forwarded writes <= capacity + min(refill,capacity)*(floor(window/interval)+3); bytes complete and in order; finished within 10x the '
-         'needed refill intervals + 5 s. Non-trivial: total bytes > capacity. Distinct = distinct case hash.',
+         'needed refill intervals + 5 s. Non-trivial: total bytes > capacity. Distinct = distinct case hash. (d) TestC17Stack, the path end to end '
+         'in the full-stack engine: reserve, direct invoke (streaming / buffered / header absent; MaxPayloadSize absent, -1, equal to or half of the '
+         "body length), the runtime's response of 2 bytes-300 KB through the real Runtime API handler and interop server, the runtime declaring the "
+         'streaming response mode or not, optionally stalling after half of its body and then either going on or being overtaken by a timeout reset. '
+         'Oracle: Complete with all bytes / Oversized with exactly limit+1 bytes / Truncated with a prefix (and Sandbox.Timeout in streaming mode) '
+         'after the reset; the reset returns within 3.5 s, the direct invoke returns at all, and an ordinary streaming direct invoke works '
+         'afterwards.',
  'assumptions': ['runtime timers never fire early on the monotonic clock the harness reads (runtime.nanotime); all delays only loosen the envelope',
                  'a header present with an empty value is treated as absent (http.Header.Get cannot tell them apart)',
                  'when a request is invalid in several ways any of the applicable errors is admissible (the property does not order them)',
